@@ -489,7 +489,7 @@ py::dict RawBinaryParser::arrays( std::vector<std::string> sub_detectors ) {
     return res;
 }
 
-py::dict py_read_bes_raw( py::array_t<uint32_t> data,
+py::dict py_read_bes_raw( py::array_t<uint32_t, py::array::c_style | py::array::forcecast> data,
                           std::vector<std::string> sub_detectors ) {
 
     if ( sub_detectors.size() == 0 ) sub_detectors = { "mdc", "tof", "emc", "muc" };
